@@ -19,10 +19,16 @@ pub fn qft(a_mask: N) -> MultiOp {
 
             for i in 0..(count - 1) {
                 res.append(&mut h::h(vec[i]));
-                res.extend((1..(count - i)).map(|j| {
-                    rz(vec[i + j], PI * 0.5f64.powi(j as i32))
-                        .and_then(|op| op.c(vec[i]))
-                        .unwrap()
+                res.extend((1..(count - i)).flat_map(|j| {
+                    // controlled phase shift diag(1, 1, 1, e^{i phase}), up to a global phase:
+                    // controlled RZ(phase) and RZ(phase / 2) on the control qubit
+                    let phase = PI * 0.5f64.powi(j as i32);
+                    [
+                        rz(vec[i + j], phase)
+                            .and_then(|op| op.c(vec[i]))
+                            .unwrap(),
+                        rz(vec[i], 0.5 * phase).unwrap(),
+                    ]
                 }));
             }
 
@@ -48,5 +54,5 @@ pub fn qft_swapped(a_mask: N) -> MultiOp {
         swaps *= crate::operator::single::swap::swap(vec_mask[i] | vec_mask[len - i - 1]).unwrap();
     }
 
-    qft(a_mask) * swaps
+    swaps * qft(a_mask)
 }
